@@ -7,17 +7,22 @@ import json, os, subprocess, sys
 REPO=os.environ.get("VERIF_REPO","/repo"); VERIF=os.path.dirname(os.path.abspath(__file__))
 def run_one(pid, m, tier="quick", run_tests=False):
     path=os.path.join(REPO,m["file"]); src=open(path).read()
-    if src.count(m["find"])!=1:
-        print("MUTANT %s: find string occurs %d times"%(m["name"],src.count(m["find"]))); return None
+    edits=m.get("edits") or [{"find":m["find"],"replace":m["replace"]}]
+    new=src
+    for e in edits:
+        if new.count(e["find"])!=1:
+            print("MUTANT %s: find string occurs %d times: %r"%(m["name"],new.count(e["find"]),e["find"][:60])); return None
+        new=new.replace(e["find"],e["replace"])
     res={}
     try:
-        open(path,"w").write(src.replace(m["find"],m["replace"]))
+        open(path,"w").write(new)
         if run_tests:
             env=dict(os.environ,GOFLAGS="-mod=mod",GOPROXY="off")
             r=subprocess.run(["go","test","-vet=off","-count=1","./"+os.path.dirname(m["file"])+"/..."],cwd=REPO,env=env,capture_output=True,text=True)
             res["tests_pass"]=(r.returncode==0)
             if r.returncode!=0: res["tests_out"]=r.stdout[-1500:]
-        r=subprocess.run([sys.executable,os.path.join(VERIF,"check.py"),pid,"--tier",tier],capture_output=True,text=True)
+        env2=dict(os.environ,VERIF_EVIDENCE_DIR="/tmp/verif-mutant-evidence",VERIF_REPLAY_DIR="/tmp/verif-mutant-replays")
+        r=subprocess.run([sys.executable,os.path.join(VERIF,"check.py"),pid,"--tier",tier],capture_output=True,text=True,env=env2)
         res["rc"]=r.returncode
         res["lines"]=[l for l in r.stdout.splitlines() if l.startswith("VIOLATION") or l.startswith("  [")][:6]
         res["summary"]=[l for l in r.stdout.splitlines() if l.startswith(pid)]
